@@ -364,6 +364,12 @@ func runC01(c *core.Ctx) {
 				names = append(names, core.FnName(fn))
 			}
 			key := strings.Join(names, " -> ")
+			// a cycle of helpers that never see the token stream is not a parsing recursion: it terminates when every
+			// recursive call descends on the finite syntax tree it was handed (classification of E9)
+			if why := astDescendingCycle(cyc); why != "" {
+				c.Discharge("tok.recursion", key, cyc[0].Pos(), why)
+				continue
+			}
 			c.Report("tok.recursion", key, cyc[0].Pos(), "recursion cycle in the "+fam.name+" that can be re-entered without consuming input (left recursion): "+key, names...)
 		}
 		c.Instances("tok.recursion", 1)
@@ -844,4 +850,54 @@ func exhaustedReaderCall(in ssa.Instruction) (aval, bool) {
 		tu[0] = aval{k: avConst, c: constant.MakeInt64(0)}
 	}
 	return aval{k: avTuple, tuple: tu}, true
+}
+
+// astDescendingCycle: none of the functions has access to a token stream (no Parser/Lexer/Reader receiver or
+// parameter) and every call inside the cycle passes an argument that descends from the caller's AST parameter.
+func astDescendingCycle(cyc []*ssa.Function) string {
+	in := map[*ssa.Function]bool{}
+	for _, fn := range cyc {
+		in[fn] = true
+		for _, p := range fn.Params {
+			switch core.NamedTypeName(derefType(p.Type())) {
+			case "Parser", "Lexer", "Reader", "Tokenizer":
+				return ""
+			}
+		}
+		if len(fn.FreeVars) > 0 {
+			return ""
+		}
+	}
+	n := 0
+	for _, fn := range cyc {
+		for _, b := range fn.Blocks {
+			for _, i := range b.Instrs {
+				call, ok := i.(ssa.CallInstruction)
+				if !ok {
+					continue
+				}
+				cal := call.Common().StaticCallee()
+				if cal == nil || !in[cal] {
+					continue
+				}
+				desc := false
+				for _, a := range call.Common().Args {
+					switch classifyArg(fn, a) {
+					case "descending":
+						desc = true
+					case "same", "re-entry":
+						return ""
+					}
+				}
+				if !desc {
+					return ""
+				}
+				n++
+			}
+		}
+	}
+	if n == 0 {
+		return ""
+	}
+	return fmt.Sprintf("helper recursion without stream access: all %d recursive call(s) descend on the syntax tree argument", n)
 }
